@@ -411,6 +411,13 @@ def run(prog, rep, tier):
         raise AnalysisError('PARAM-dropped: returns of MPS.get_theta not found')
     if check_perm_direction(prog, rep) < 1:
         raise AnalysisError('PERM-direction: use of the map_incoming_flat index list not found')
+    rep.rule('SITE-rmw-order', 'a one-site read-modify-write through get_B/set_B is not '
+             'separated by a write to another (possibly identical) site')
+    check_rmw_order(prog, rep)
+    rep.rule('FORM-scale-exponent', 'case analysis of _scale_axis_B over the values form_diff '
+             'is compared with: the power of S applied equals form_diff')
+    check_scale_exponent(prog, rep)
+    rep.floor('FORM-scale-exponent', 5)
     rep.floor('FORM-isometry', 8)
     rep.assumptions += ['nothing about the represented vector, Schmidt values or entropies is '
                         'decided']
@@ -418,3 +425,145 @@ def run(prog, rep, tier):
         level='other',
         explanation='Canonical-form bookkeeping decided on direct flows: %d set_B sites whose '
         'tensor is the output of a factorization, plus side pairing and table rules.' % n)
+
+
+# ------------------------------------------------------------------ SITE-rmw-order
+def _site_reads(f):
+    """(position statement, site index text, getter) of every read `self.get_B(i, ..)` /
+    `self._B[i]`, keyed by the local it is bound to (None when used in place)"""
+    reads = []
+    for st in stmts_of(f):
+        if isinstance(st, (ast.If, ast.For, ast.While, ast.With, ast.Try)):
+            continue
+        pairs = []
+        if isinstance(st, ast.Assign) and len(st.targets) == 1:
+            t, v = st.targets[0], st.value
+            if isinstance(t, ast.Tuple) and isinstance(v, ast.Tuple) and len(t.elts) == len(
+                    v.elts):
+                pairs = list(zip(t.elts, v.elts))
+            else:
+                pairs = [(t, v)]
+        for t, v in pairs:
+            if isinstance(t, ast.Name) and isinstance(v, ast.Call) and isinstance(
+                    v.func, ast.Attribute) and v.func.attr == 'get_B' and \
+                    unparse(v.func.value) == 'self' and v.args:
+                reads.append((st, unparse(v.args[0]), t.id))
+    return reads
+
+
+def check_rmw_order(prog, rep):
+    """SITE-rmw-order: `set_B(x, E)` where E is computed from the tensor of the same site x (a
+    read-modify-write of one site). If that tensor was read into a local BEFORE another site y was
+    written, and x and y can be the same site (i and i+1 of a one-site unit cell), the second
+    write is based on a stale tensor and undoes the first: the read must not be separated from
+    its write by a write to another site index."""
+    m = prog.module(MPS)
+    n = 0
+    for q, f in m.functions.items():
+        if not q.startswith('MPS.'):
+            continue
+        reads = _site_reads(f)
+        if not reads:
+            continue
+        writes = []
+        for st in stmts_of(f):
+            if isinstance(st, ast.Expr) and isinstance(st.value, ast.Call) and isinstance(
+                    st.value.func, ast.Attribute) and st.value.func.attr == 'set_B' and \
+                    unparse(st.value.func.value) == 'self' and len(st.value.args) >= 2:
+                writes.append((st, unparse(st.value.args[0]), st.value.args[1]))
+        for wst, x, E in writes:
+            used = {nm.id for nm in ast.walk(E) if isinstance(nm, ast.Name)}
+            own = [r for r in reads if r[2] in used and r[1] == x and r[0].lineno < wst.lineno]
+            other = [r for r in reads if r[2] in used and r[1] != x]
+            if not own or other:
+                continue          # not a one-site read-modify-write
+            for rst, _, nm in own:
+                between = [w for w in writes if rst.lineno < w[0].lineno < wst.lineno and
+                           w[1] != x and parent(w[0]) is parent(wst)]
+                n += 1
+                rep.instance('SITE-rmw-order', {'function': q, 'site': x, 'read': key_text(rst)[:60],
+                                                'write': key_text(wst)[:60],
+                                                'writes_between': [w[1] for w in between]})
+                if between:
+                    rep.violation('SITE-rmw-order', m, q, 'stale-read:%s' % x,
+                                  '`%s` was read into `%s` before `%s` was written, and is '
+                                  'written back afterwards (`%s`): when the two indices denote '
+                                  'the same tensor (unit cell of one site: i and i+1 wrap to the '
+                                  'same site) the second write is based on the stale tensor and '
+                                  'discards the first update' %
+                                  ('self.get_B(%s)' % x, nm, 'site ' + between[0][1],
+                                   key_text(wst)[:60]), wst.lineno)
+    return n
+
+
+# ------------------------------------------------------------------ FORM-scale-exponent
+def _s_exponent(e, sname):
+    """exponent of the array `sname` in the expression e (None: not a pure power)"""
+    from fractions import Fraction as F
+    if isinstance(e, ast.Name) and e.id == sname:
+        return F(1)
+    if isinstance(e, ast.BinOp) and isinstance(e.op, ast.Div) and isinstance(
+            e.left, ast.Constant) and e.left.value in (1, 1.0):
+        x = _s_exponent(e.right, sname)
+        return None if x is None else -x
+    if isinstance(e, ast.BinOp) and isinstance(e.op, ast.Pow):
+        x = _s_exponent(e.left, sname)
+        k = e.right
+        neg = False
+        if isinstance(k, ast.UnaryOp) and isinstance(k.op, ast.USub):
+            k, neg = k.operand, True
+        if x is None or not isinstance(k, ast.Constant) or not isinstance(k.value, (int, float)):
+            return None
+        v = F(k.value).limit_denominator(64)
+        return x * (-v if neg else v)
+    return None
+
+
+def check_scale_exponent(prog, rep):
+    """FORM-scale-exponent: MPS._scale_axis_B(B, S, form_diff, ..) must multiply S**form_diff.
+    The function touches form_diff only through comparisons with constants and as an exponent, so
+    a finite case analysis over representative values (-1, -1/2, 0, 1/2, 1: all differences of
+    the forms A, B, C, G, Th) decides it: on the path taken for the value v the array handed to
+    scale_axis must be S**v."""
+    from fractions import Fraction as F
+    from ..dtable import run_paths
+    m = prog.module(MPS)
+    f = m.functions.get('MPS._scale_axis_B')
+    if f is None:
+        raise AnalysisError('MPS._scale_axis_B not found')
+    pn = params(f)
+    bname, sname, dname = pn[1], pn[2], pn[3]
+    body = [s for s in f.body if not (isinstance(s, ast.Expr) and isinstance(s.value,
+                                                                             ast.Constant))]
+    n = 0
+    for v in (-1.0, -0.5, 0, 0.5, 1.0):
+        paths = run_paths(body, {'isinstance(%s, npc.Array)' % sname: False}, env={dname: v})
+        rets = [p for p in paths if p.outcome == 'return']
+        if len(rets) != 1 or len(paths) != 1:
+            raise AnalysisError('_scale_axis_B: %d paths for form_diff=%s' % (len(paths), v))
+        p = rets[0]
+        val = p.value
+        if isinstance(val, ast.Name) and val.id == bname:
+            got = F(0)
+        elif isinstance(val, ast.Call) and isinstance(val.func, ast.Attribute) and \
+                val.func.attr == 'scale_axis' and val.args:
+            arg = val.args[0]
+            if isinstance(arg, ast.Name) and isinstance(p.env.get(arg.id), ast.AST):
+                arg = p.env[arg.id]
+            elif isinstance(arg, ast.Name) and arg.id != sname:
+                arg = None
+            got = _s_exponent(arg, sname) if arg is not None else None
+        else:
+            got = None
+        n += 1
+        rep.instance('FORM-scale-exponent', {'form_diff': v, 'returns': unparse(val),
+                                             'exponent_of_S': str(got)})
+        if got is None:
+            raise AnalysisError('_scale_axis_B: cannot read the power of S for form_diff=%s '
+                                '(`%s`)' % (v, unparse(val)))
+        if got != F(v).limit_denominator(64):
+            rep.violation('FORM-scale-exponent', m, 'MPS._scale_axis_B', 'exponent:%s' % v,
+                          'for form_diff = %s the tensor is scaled with S**%s instead of S**%s: '
+                          'conversions to / from the symmetric form C (exponents 1/2) change '
+                          'the state' % (v, got, v), f.lineno)
+    return n
